@@ -36,9 +36,10 @@ theorem C15_field_encoding_injective {n₁ d₁ v₁ n₂ d₂ v₂ : Bytes}
 
 /-- The fields the code actually frames never contain the separator: the two
 names (from the source), decimal timestamps, base64 text. -/
-theorem C15_fields_separator_free (k : Kind) (now : Nat) (value : Bytes) :
-    sep ∉ k.decodeName ∧ sep ∉ k.encodeName ∧ sep ∉ decDigits now ∧ sep ∉ b64 value :=
-  ⟨sep_not_mem_name k, by rw [names_agree]; exact sep_not_mem_name k, sep_not_mem_decDigits now, sep_not_mem_b64 value⟩
+theorem C15_fields_separator_free (k : Kind) (mac : Mac) (hk bk : Bytes) (now : Nat) (value : Bytes) :
+    sep ∉ k.decodeName mac hk bk ∧ sep ∉ k.encodeName mac hk bk ∧ sep ∉ decDigits now ∧ sep ∉ b64 value :=
+  ⟨sep_not_mem_name k mac hk bk, by rw [names_agree]; exact sep_not_mem_name k mac hk bk,
+   sep_not_mem_decDigits now, sep_not_mem_b64 value⟩
 
 /-! ## 1. What the server mints -/
 
@@ -48,12 +49,14 @@ structure Mint where
   now : Nat
   value : Bytes
 
-/-- The message the server authenticates when minting. -/
-def Mint.msg (m : Mint) : Bytes := macMsg m.kind.decodeName (decDigits m.now) (b64 m.value)
+/-- The message a server with hash key `hk` and block key `bk` (`[]` = none) authenticates
+when minting. -/
+def Mint.msg (mac : Mac) (hk bk : Bytes) (m : Mint) : Bytes :=
+  macMsg (m.kind.decodeName mac hk bk) (decDigits m.now) (b64 m.value)
 
-/-- The id string the server hands out. -/
-def Mint.id (mac : Mac) (hk : Bytes) (m : Mint) : Bytes :=
-  wire m.kind (cookieBytes (decDigits m.now) (b64 m.value) (mac hk m.msg))
+/-- The id string that server hands out. -/
+def Mint.id (mac : Mac) (hk bk : Bytes) (m : Mint) : Bytes :=
+  wire m.kind (cookieBytes (decDigits m.now) (b64 m.value) (mac hk (m.msg mac hk bk)))
 
 theorem cookieEncode_some {mac : Mac} {hk name : Bytes} {now : Nat} {value s : Bytes}
     (h : cookieEncode mac hk name now value = some s) :
@@ -70,11 +73,11 @@ theorem cookieEncode_some {mac : Mac} {hk name : Bytes} {now : Nat} {value s : B
     exact ⟨by simpa using hk0, rfl, by omega⟩
 
 /-- `EncodePrivate` / `EncodePublic` produce exactly `Mint.id` (or fail). -/
-theorem encodeId_eq {mac : Mac} {hk : Bytes} {m : Mint} {s : Bytes}
-    (h : encodeId mac hk m.kind m.now m.value = some s) :
-    s = m.id mac hk ∧ hk ≠ [] ∧ s.length ≤ maxLength := by
+theorem encodeId_eq {mac : Mac} {hk bk : Bytes} {m : Mint} {s : Bytes}
+    (h : encodeId mac hk bk m.kind m.now m.value = some s) :
+    s = m.id mac hk bk ∧ hk ≠ [] ∧ s.length ≤ maxLength := by
   unfold encodeId at h
-  cases hc : cookieEncode mac hk m.kind.encodeName m.now m.value with
+  cases hc : cookieEncode mac hk (m.kind.encodeName mac hk bk) m.now m.value with
   | none => simp [hc] at h
   | some c =>
     simp only [hc] at h
@@ -102,36 +105,36 @@ theorem encodeId_eq {mac : Mac} {hk : Bytes} {m : Mint} {s : Bytes}
 /-- **C15_roundtrip.** Whatever `EncodePrivate`/`EncodePublic` return decodes, in the
 same role and under the same hash key, to exactly the value that was encoded
 (timestamps are Unix seconds; `2^63` is where `%d`/`ParseInt` on int64 would part). -/
-theorem C15_roundtrip (mac : Mac) (hk : Bytes) (k : Kind) (now : Nat) (value s : Bytes) (t : Int)
-    (hnow : now < 2 ^ 63) (h : encodeId mac hk k now value = some s) :
-    decodeValue mac hk k t s = some value := by
+theorem C15_roundtrip (mac : Mac) (hk bk : Bytes) (k : Kind) (now : Nat) (value s : Bytes) (t : Int)
+    (hnow : now < 2 ^ 63) (h : encodeId mac hk bk k now value = some s) :
+    decodeValue mac hk bk k t s = some value := by
   obtain ⟨hs, hk0, hl⟩ := encodeId_eq (m := ⟨k, now, value⟩) h
   rw [decodeValue_some_iff]
   refine ⟨hk0, hl, decDigits now, b64 value, _, hs, sep_not_mem_decDigits now, sep_not_mem_b64 value, rfl, ?_, unb64_b64 value⟩
   rw [parseInt64_decDigits hnow]; rfl
 
 /-- …and with decryption/deserialisation `open_` inverting what produced `value`. -/
-theorem C15_roundtrip_data (mac : Mac) (hk : Bytes) (open_ : Bytes → Option Bytes) (k : Kind) (now : Nat)
+theorem C15_roundtrip_data (mac : Mac) (hk bk : Bytes) (open_ : Bytes → Option Bytes) (k : Kind) (now : Nat)
     (value data s : Bytes) (t : Int) (hnow : now < 2 ^ 63) (hopen : open_ value = some data)
-    (h : encodeId mac hk k now value = some s) : decodeId mac hk open_ k t s = some data := by
+    (h : encodeId mac hk bk k now value = some s) : decodeId mac hk bk open_ k t s = some data := by
   unfold decodeId
-  rw [C15_roundtrip mac hk k now value s t hnow h]; exact hopen
+  rw [C15_roundtrip mac hk bk k now value s t hnow h]; exact hopen
 
 /-! ## 3. Accepted ⇔ three fields whose tag is the MAC of name|date|value -/
 
 /-- **C15_accept_iff_tag.** A string decodes in role `k` under hash key `hk` iff it is
 the (canonical) spelling of `date|value|tag` — reversed for public ids — with
 `tag = mac hk (name_k|date|value)`, a parsable timestamp and base64 value text. -/
-theorem C15_accept_iff_tag (mac : Mac) (hk : Bytes) (k : Kind) (now : Int) (s v : Bytes) :
-    decodeValue mac hk k now s = some v ↔
+theorem C15_accept_iff_tag (mac : Mac) (hk bk : Bytes) (k : Kind) (now : Int) (s v : Bytes) :
+    decodeValue mac hk bk k now s = some v ↔
       hk ≠ [] ∧ s.length ≤ maxLength ∧ ∃ date vb tag, s = wire k (cookieBytes date vb tag) ∧
-        sep ∉ date ∧ sep ∉ vb ∧ tag = mac hk (macMsg k.decodeName date vb) ∧
+        sep ∉ date ∧ sep ∉ vb ∧ tag = mac hk (macMsg (k.decodeName mac hk bk) date vb) ∧
         (parseInt64 date).isSome = true ∧ unb64 vb = some v :=
-  decodeValue_some_iff mac hk k now s v
+  decodeValue_some_iff mac hk bk k now s v
 
 /-- Other spellings of the same bytes (CR/LF, padding bits, missing padding) are rejected. -/
-theorem C15_noncanonical_rejected (mac : Mac) (hk : Bytes) (k : Kind) (now : Int) (s : Bytes)
-    (h : Base64.canonical Base64.url s = false) : decodeValue mac hk k now s = none := by
+theorem C15_noncanonical_rejected (mac : Mac) (hk bk : Bytes) (k : Kind) (now : Int) (s : Bytes)
+    (h : Base64.canonical Base64.url s = false) : decodeValue mac hk bk k now s = none := by
   unfold decodeValue
   have hc : k.checksCanonical = true := by cases k; exact flags.1; exact flags.2.1
   simp [hc, h]
@@ -139,53 +142,54 @@ theorem C15_noncanonical_rejected (mac : Mac) (hk : Bytes) (k : Kind) (now : Int
 /-! ## 4. Forgery reduces to a fresh MAC value; any modification is invalid -/
 
 /-- **C15_forgery_needs_fresh_mac** (no cryptographic hypothesis).  Let `minted` be
-everything the server ever minted under `hk`.  If a string that is none of the minted
-ids is accepted, it carries `mac hk msg` for a message `msg` the server never
+everything the server ever minted under its keys `(hk, bk)`.  If a string that is none of
+the minted ids is accepted, it carries `mac hk msg` for a message `msg` the server never
 authenticated — a MAC forgery. -/
-theorem C15_forgery_needs_fresh_mac (mac : Mac) (hk : Bytes) (minted : List Mint) (k : Kind) (now : Int)
-    (s v : Bytes) (hacc : decodeValue mac hk k now s = some v) (hnew : ∀ m ∈ minted, m.id mac hk ≠ s) :
+theorem C15_forgery_needs_fresh_mac (mac : Mac) (hk bk : Bytes) (minted : List Mint) (k : Kind) (now : Int)
+    (s v : Bytes) (hacc : decodeValue mac hk bk k now s = some v) (hnew : ∀ m ∈ minted, m.id mac hk bk ≠ s) :
     ∃ date vb, sep ∉ date ∧ sep ∉ vb ∧
-      s = wire k (cookieBytes date vb (mac hk (macMsg k.decodeName date vb))) ∧
-      ∀ m ∈ minted, m.msg ≠ macMsg k.decodeName date vb := by
-  obtain ⟨_, _, date, vb, tag, hs, hd, hv, ht, _, _⟩ := (C15_accept_iff_tag _ _ _ _ _ _).mp hacc
+      s = wire k (cookieBytes date vb (mac hk (macMsg (k.decodeName mac hk bk) date vb))) ∧
+      ∀ m ∈ minted, m.msg mac hk bk ≠ macMsg (k.decodeName mac hk bk) date vb := by
+  obtain ⟨_, _, date, vb, tag, hs, hd, hv, ht, _, _⟩ := (C15_accept_iff_tag _ _ _ _ _ _ _).mp hacc
   subst ht
   refine ⟨date, vb, hd, hv, hs, ?_⟩
   intro m hm heq
   unfold Mint.msg at heq
-  obtain ⟨hn, hdate, hvb⟩ := C15_field_encoding_injective (sep_not_mem_name _) (sep_not_mem_name _)
+  obtain ⟨hn, hdate, hvb⟩ := C15_field_encoding_injective (sep_not_mem_name _ _ _ _) (sep_not_mem_name _ _ _ _)
     (sep_not_mem_decDigits _) hd heq
   apply hnew m hm
   have hk' : m.kind = k := decodeName_injective hn
   unfold Mint.id Mint.msg
   rw [hs, hdate, hvb, hk']
 
-/-- **C15_any_modification_invalid.** Take an id `m.id` minted under `hk`.  Every other
-string accepted under `hk` — in either role — authenticates a *different* message with a
-*different* tag: nothing of the minted id's authentication can be reused.  So a string
+/-- **C15_any_modification_invalid.** Take an id `m.id` minted under `(hk, bk)`.  Every other
+string accepted under these keys — in either role — authenticates a *different* message with
+a *different* tag: nothing of the minted id's authentication can be reused.  So a string
 obtained from a valid id without computing a new MAC under `hk` is rejected. -/
-theorem C15_any_modification_invalid (mac : Mac) (hideal : IdealMac mac) (hk : Bytes) (m : Mint)
-    (k : Kind) (now : Int) (s' v : Bytes) (hne : s' ≠ m.id mac hk)
-    (hacc : decodeValue mac hk k now s' = some v) :
+theorem C15_any_modification_invalid (mac : Mac) (hideal : IdealMac mac) (hk bk : Bytes) (m : Mint)
+    (k : Kind) (now : Int) (s' v : Bytes) (hne : s' ≠ m.id mac hk bk)
+    (hacc : decodeValue mac hk bk k now s' = some v) :
     ∃ date vb, sep ∉ date ∧ sep ∉ vb ∧
-      s' = wire k (cookieBytes date vb (mac hk (macMsg k.decodeName date vb))) ∧
-      macMsg k.decodeName date vb ≠ m.msg ∧ mac hk (macMsg k.decodeName date vb) ≠ mac hk m.msg := by
-  obtain ⟨date, vb, hd, hv, hs, hfresh⟩ := C15_forgery_needs_fresh_mac mac hk [m] k now s' v hacc
+      s' = wire k (cookieBytes date vb (mac hk (macMsg (k.decodeName mac hk bk) date vb))) ∧
+      macMsg (k.decodeName mac hk bk) date vb ≠ m.msg mac hk bk ∧
+      mac hk (macMsg (k.decodeName mac hk bk) date vb) ≠ mac hk (m.msg mac hk bk) := by
+  obtain ⟨date, vb, hd, hv, hs, hfresh⟩ := C15_forgery_needs_fresh_mac mac hk bk [m] k now s' v hacc
     (by intro m' hm'; simp at hm'; subst hm'; exact fun e => hne e.symm)
-  have hmsg : macMsg k.decodeName date vb ≠ m.msg := fun e => hfresh m (by simp) e.symm
+  have hmsg : macMsg (k.decodeName mac hk bk) date vb ≠ m.msg mac hk bk := fun e => hfresh m (by simp) e.symm
   exact ⟨date, vb, hd, hv, hs, hmsg, fun e => hmsg (hideal _ _ _ _ e).2⟩
 
 /-- In particular: a string other than the minted id that keeps its tag, or keeps its
 authenticated fields (and so must differ in the tag), is rejected. -/
-theorem C15_tag_or_payload_kept_rejected (mac : Mac) (hideal : IdealMac mac) (hk : Bytes) (m : Mint)
+theorem C15_tag_or_payload_kept_rejected (mac : Mac) (hideal : IdealMac mac) (hk bk : Bytes) (m : Mint)
     (k : Kind) (now : Int) (date vb tag : Bytes) (hd : sep ∉ date) (hv : sep ∉ vb)
-    (hne : wire k (cookieBytes date vb tag) ≠ m.id mac hk)
-    (hkeep : tag = mac hk m.msg ∨ macMsg k.decodeName date vb = m.msg) :
-    decodeValue mac hk k now (wire k (cookieBytes date vb tag)) = none := by
-  cases hdec : decodeValue mac hk k now (wire k (cookieBytes date vb tag)) with
+    (hne : wire k (cookieBytes date vb tag) ≠ m.id mac hk bk)
+    (hkeep : tag = mac hk (m.msg mac hk bk) ∨ macMsg (k.decodeName mac hk bk) date vb = m.msg mac hk bk) :
+    decodeValue mac hk bk k now (wire k (cookieBytes date vb tag)) = none := by
+  cases hdec : decodeValue mac hk bk k now (wire k (cookieBytes date vb tag)) with
   | none => rfl
   | some v =>
     exfalso
-    obtain ⟨d', v', hd', hv', hs, hmsg, htag⟩ := C15_any_modification_invalid mac hideal hk m k now _ v hne hdec
+    obtain ⟨d', v', hd', hv', hs, hmsg, htag⟩ := C15_any_modification_invalid mac hideal hk bk m k now _ v hne hdec
     obtain ⟨e1, e2, e3⟩ := cookieBytes_injective hd hv hd' hv' (wire_injective hs)
     subst e1 e2
     rcases hkeep with h1 | h2
@@ -198,21 +202,23 @@ theorem C15_tag_or_payload_kept_rejected (mac : Mac) (hideal : IdealMac mac) (hk
 `cb` spelled as a private id is accepted as private, then `cb` spelled as a public id
 (i.e. the private id byte-reversed) is rejected as public, and conversely — for every
 byte string `cb`, minted or not. -/
-theorem C15_kinds_disjoint (mac : Mac) (hideal : IdealMac mac) (hk : Bytes) (t t' : Int) (cb v v' : Bytes) :
-    ¬ (decodeValue mac hk .priv t (wire .priv cb) = some v ∧ decodeValue mac hk .pub t' (wire .pub cb) = some v') := by
+theorem C15_kinds_disjoint (mac : Mac) (hideal : IdealMac mac) (hk bk : Bytes) (t t' : Int) (cb v v' : Bytes) :
+    ¬ (decodeValue mac hk bk .priv t (wire .priv cb) = some v ∧
+       decodeValue mac hk bk .pub t' (wire .pub cb) = some v') := by
   rintro ⟨h1, h2⟩
-  obtain ⟨_, _, d₁, v₁, t₁, hs₁, hd₁, hv₁, ht₁, _, _⟩ := (C15_accept_iff_tag _ _ _ _ _ _).mp h1
-  obtain ⟨_, _, d₂, v₂, t₂, hs₂, hd₂, hv₂, ht₂, _, _⟩ := (C15_accept_iff_tag _ _ _ _ _ _).mp h2
+  obtain ⟨_, _, d₁, v₁, t₁, hs₁, hd₁, hv₁, ht₁, _, _⟩ := (C15_accept_iff_tag _ _ _ _ _ _ _).mp h1
+  obtain ⟨_, _, d₂, v₂, t₂, hs₂, hd₂, hv₂, ht₂, _, _⟩ := (C15_accept_iff_tag _ _ _ _ _ _ _).mp h2
   have e := (wire_injective hs₁).symm.trans (wire_injective hs₂)
   obtain ⟨rfl, rfl, e3⟩ := cookieBytes_injective hd₁ hv₁ hd₂ hv₂ e
   rw [ht₁, ht₂] at e3
   have := (hideal _ _ _ _ e3).2
-  exact names_distinct (C15_field_encoding_injective (sep_not_mem_name _) (sep_not_mem_name _) hd₁ hd₁ this).1
+  exact names_distinct mac hk bk
+    (C15_field_encoding_injective (sep_not_mem_name _ _ _ _) (sep_not_mem_name _ _ _ _) hd₁ hd₁ this).1
 
 /-- No string whatsoever is accepted under both cookie names by the securecookie layer. -/
-theorem C15_names_disjoint (mac : Mac) (hideal : IdealMac mac) (hk : Bytes) (t t' : Int) (s v v' : Bytes) :
-    ¬ (cookieDecode mac hk (Kind.decodeName .priv) t s = some v ∧
-       cookieDecode mac hk (Kind.decodeName .pub) t' s = some v') := by
+theorem C15_names_disjoint (mac : Mac) (hideal : IdealMac mac) (hk bk : Bytes) (t t' : Int) (s v v' : Bytes) :
+    ¬ (cookieDecode mac hk (Kind.decodeName .priv mac hk bk) t s = some v ∧
+       cookieDecode mac hk (Kind.decodeName .pub mac hk bk) t' s = some v') := by
   rintro ⟨h1, h2⟩
   obtain ⟨_, _, d₁, v₁, t₁, hs₁, hd₁, hv₁, ht₁, _, _⟩ := (cookieDecode_some_iff _ _ _ _ _ _).mp h1
   obtain ⟨_, _, d₂, v₂, t₂, hs₂, hd₂, hv₂, ht₂, _, _⟩ := (cookieDecode_some_iff _ _ _ _ _ _).mp h2
@@ -220,7 +226,8 @@ theorem C15_names_disjoint (mac : Mac) (hideal : IdealMac mac) (hk : Bytes) (t t
   obtain ⟨rfl, rfl, e3⟩ := cookieBytes_injective hd₁ hv₁ hd₂ hv₂ (Option.some.inj hs₂)
   rw [ht₁, ht₂] at e3
   have := (hideal _ _ _ _ e3).2
-  exact names_distinct (C15_field_encoding_injective (sep_not_mem_name _) (sep_not_mem_name _) hd₁ hd₁ this).1
+  exact names_distinct mac hk bk
+    (C15_field_encoding_injective (sep_not_mem_name _ _ _ _) (sep_not_mem_name _ _ _ _) hd₁ hd₁ this).1
 
 /-- The additional idealisation used for the *literal* cross-use of a minted id (the
 public id string handed to `DecodePrivate` and the reverse): a tag does not end in a
@@ -238,16 +245,17 @@ def Kind.other : Kind → Kind
 /-- **C15_minted_cross_role_rejected.** A minted public id never decodes as a private
 (resume) id and a minted private id never decodes as a public id — whatever the keys
 of the decoding side. -/
-theorem C15_minted_cross_role_rejected (mac : Mac) (hopaque : TagTailOpaque mac) (hk hk' : Bytes) (m : Mint)
-    (t : Int) : decodeValue mac hk' m.kind.other t (m.id mac hk) = none := by
-  cases hdec : decodeValue mac hk' m.kind.other t (m.id mac hk) with
+theorem C15_minted_cross_role_rejected (mac : Mac) (hopaque : TagTailOpaque mac) (hk bk hk' bk' : Bytes) (m : Mint)
+    (t : Int) : decodeValue mac hk' bk' m.kind.other t (m.id mac hk bk) = none := by
+  cases hdec : decodeValue mac hk' bk' m.kind.other t (m.id mac hk bk) with
   | none => rfl
   | some v =>
     exfalso
-    obtain ⟨_, _, d', v', t', hs, hd', hv', _, hp, _⟩ := (C15_accept_iff_tag _ _ _ _ _ _).mp hdec
-    obtain ⟨c, hlast, h43, h45, hdig⟩ := hopaque hk m.msg
+    obtain ⟨_, _, d', v', t', hs, hd', hv', _, hp, _⟩ := (C15_accept_iff_tag _ _ _ _ _ _ _).mp hdec
+    obtain ⟨c, hlast, h43, h45, hdig⟩ := hopaque hk (m.msg mac hk bk)
     -- the bytes inside the two spellings are each other's reversal
-    have hrev : cookieBytes d' v' t' = (cookieBytes (decDigits m.now) (b64 m.value) (mac hk m.msg)).reverse := by
+    have hrev : cookieBytes d' v' t' =
+        (cookieBytes (decDigits m.now) (b64 m.value) (mac hk (m.msg mac hk bk))).reverse := by
       unfold Mint.id at hs
       cases hkind : m.kind with
       | priv =>
@@ -260,7 +268,7 @@ theorem C15_minted_cross_role_rejected (mac : Mac) (hopaque : TagTailOpaque mac)
         simp only [Kind.other, wire] at hs
         exact (b64_injective hs).symm
     -- so they start with the last byte of the tag
-    obtain ⟨pre, htag⟩ : ∃ pre, mac hk m.msg = pre ++ [c] := by
+    obtain ⟨pre, htag⟩ : ∃ pre, mac hk (m.msg mac hk bk) = pre ++ [c] := by
       have := List.getLast?_eq_some_iff.mp hlast
       exact this
     have hstart : ∃ rest, cookieBytes d' v' t' = c :: rest := by
@@ -285,33 +293,36 @@ theorem C15_minted_cross_role_rejected (mac : Mac) (hopaque : TagTailOpaque mac)
 
 /-! ## 6. Other keys -/
 
-/-- **C15_other_keys_rejected.** An id minted under hash key `hk` is rejected by a
-server whose hash key differs, in the same role (the other role: see
-`C15_minted_cross_role_rejected`).  The *block* key is not part of what is
-authenticated — see `C15_block_key_not_authenticated`. -/
-theorem C15_other_keys_rejected (mac : Mac) (hideal : IdealMac mac) (hk hk' : Bytes) (hne : hk ≠ hk') (m : Mint)
-    (t : Int) : decodeValue mac hk' m.kind t (m.id mac hk) = none := by
-  cases hdec : decodeValue mac hk' m.kind t (m.id mac hk) with
+/-- **C15_other_keys_rejected.** An id minted under the key set `(hk, bk)` is rejected by a
+server holding any other key set `(hk', bk')` — another hash key, another block key, a block
+key where there was none or none where there was one — in the same role (the other role:
+`C15_minted_cross_role_rejected`).  The block key counts because the cookie names carry
+`MAC(hashKey, "block-key|" ‖ blockKey)` (repository commit "fix: bind the block key …"). -/
+theorem C15_other_keys_rejected (mac : Mac) (hideal : IdealMac mac) (hk bk hk' bk' : Bytes)
+    (hne : (hk, bk) ≠ (hk', bk')) (m : Mint) (t : Int) :
+    decodeValue mac hk' bk' m.kind t (m.id mac hk bk) = none := by
+  cases hdec : decodeValue mac hk' bk' m.kind t (m.id mac hk bk) with
   | none => rfl
   | some v =>
     exfalso
-    obtain ⟨_, _, d', v', t', hs, hd', hv', ht', _, _⟩ := (C15_accept_iff_tag _ _ _ _ _ _).mp hdec
-    obtain ⟨_, _, e3⟩ := cookieBytes_injective (sep_not_mem_decDigits _) (sep_not_mem_b64 _) hd' hv'
+    obtain ⟨_, _, d', v', t', hs, hd', hv', ht', _, _⟩ := (C15_accept_iff_tag _ _ _ _ _ _ _).mp hdec
+    obtain ⟨e1, e2, e3⟩ := cookieBytes_injective (sep_not_mem_decDigits _) (sep_not_mem_b64 _) hd' hv'
       (wire_injective hs)
     rw [ht'] at e3
-    exact hne (hideal _ _ _ _ e3).1
+    obtain ⟨hkeq, hmsg⟩ := hideal _ _ _ _ e3
+    subst hkeq
+    unfold Mint.msg at hmsg
+    have hname := (C15_field_encoding_injective (sep_not_mem_name _ _ _ _) (sep_not_mem_name _ _ _ _)
+      (sep_not_mem_decDigits _) hd' hmsg).1
+    exact hne (by rw [decodeName_block_injective hideal hname])
 
-/-- The value bytes an id is accepted with do not depend on the block key at all
-(`decodeValue` has no such parameter): two key sets that share the hash key accept
-exactly the same strings at the MAC stage; what the other side's decryption makes of
-the value is outside the authenticated part.  This is the known finding
-`C15-block-key-not-authenticated`; the statement "ids minted under different keys are
-rejected" is proved for differing *hash* keys only. -/
-theorem C15_block_key_not_authenticated (mac : Mac) (hk : Bytes) (k : Kind) (t : Int) (s : Bytes)
-    (open₁ open₂ : Bytes → Option Bytes) (v d : Bytes) (hv : decodeValue mac hk k t s = some v)
-    (h2 : open₂ v = some d) : decodeId mac hk open₂ k t s = some d ∧
-      (decodeId mac hk open₁ k t s).isSome = (open₁ v).isSome := by
-  unfold decodeId; rw [hv]; exact ⟨h2, rfl⟩
+/-- What the binding is for: *without* it (the code before the fix, `decodeName` a constant)
+the value bytes an id is accepted with do not depend on the block key at all, so two key
+sets sharing the hash key accepted each other's ids at the MAC stage and handed the
+wrongly decrypted bytes to the deserialiser.  In the model as it is now the names differ: -/
+theorem C15_block_key_changes_names (mac : Mac) (hideal : IdealMac mac) (k : Kind) (hk bk bk' : Bytes)
+    (hne : bk ≠ bk') : k.decodeName mac hk bk ≠ k.decodeName mac hk bk' :=
+  fun h => hne (decodeName_block_injective hideal h)
 
 /-! ## 7. The decode cache of the hub -/
 
@@ -333,10 +344,10 @@ def HubOp.wf (open_ : Bytes → Option Bytes) : HubOp → Prop
   | .register now vp vq d => now < 2 ^ 63 ∧ open_ vp = some d ∧ open_ vq = some d
   | _ => True
 
-/-- Every cache entry is what decoding its id (in its role, under the hub's key) yields. -/
+/-- Every cache entry is what decoding its id (in its role, under the hub's keys) yields. -/
 def CacheSound (mac : Mac) (open_ : Bytes → Option Bytes) (h : Hub) : Prop :=
   ∀ key d, h.cache.get key = some d →
-    ∃ k id, id ≠ [] ∧ key = cacheKey k id ∧ ∀ t, decodeId mac h.hashKey open_ k t id = some d
+    ∃ k id, id ≠ [] ∧ key = cacheKey k id ∧ ∀ t, decodeId mac h.hashKey h.blockKey open_ k t id = some d
 
 theorem CacheSound.remove {mac : Mac} {open_ : Bytes → Option Bytes} {h : Hub} (hs : CacheSound mac open_ h)
     (key : Bytes) : CacheSound mac open_ { h with cache := h.cache.remove key } := by
@@ -347,7 +358,7 @@ theorem CacheSound.remove {mac : Mac} {open_ : Bytes → Option Bytes} {h : Hub}
   · exact hs key' d hget
 
 theorem CacheSound.set {mac : Mac} {open_ : Bytes → Option Bytes} {h : Hub} (hs : CacheSound mac open_ h)
-    (k : Kind) (id d : Bytes) (hid : id ≠ []) (hdec : ∀ t, decodeId mac h.hashKey open_ k t id = some d) :
+    (k : Kind) (id d : Bytes) (hid : id ≠ []) (hdec : ∀ t, decodeId mac h.hashKey h.blockKey open_ k t id = some d) :
     CacheSound mac open_ { h with cache := h.cache.set (cacheKey k id) d } := by
   intro key' d' hget
   simp only [Cache.get_set] at hget
@@ -360,94 +371,93 @@ theorem CacheSound.set {mac : Mac} {open_ : Bytes → Option Bytes} {h : Hub} (h
 theorem isEmpty_false {id : Bytes} (h : id.isEmpty = false) : id ≠ [] := by
   intro e; subst e; simp at h
 
+theorem minted_ne_nil {mac : Mac} {hk bk : Bytes} {k : Kind} {now : Nat} {v s : Bytes}
+    (hnow : now < 2 ^ 63) (h : encodeId mac hk bk k now v = some s) : s ≠ [] := by
+  intro e; subst e
+  have := C15_roundtrip mac hk bk k now v [] 0 hnow h
+  obtain ⟨_, _, d', v', t', hs', _⟩ := (C15_accept_iff_tag _ _ _ _ _ _ _).mp this
+  have : ([] : Bytes).length = (b64 (cookieBytes d' v' t')).length := by rw [hs', wire_length]
+  rw [b64_length] at this
+  simp [cookieBytes] at this
+  omega
+
 theorem step_sound (mac : Mac) (open_ : Bytes → Option Bytes) (t : Int) (h : Hub) (op : HubOp)
     (hwf : op.wf open_) (hs : CacheSound mac open_ h) :
-    CacheSound mac open_ (h.step mac open_ t op) ∧ (h.step mac open_ t op).hashKey = h.hashKey := by
+    CacheSound mac open_ (h.step mac open_ t op) ∧ (h.step mac open_ t op).hashKey = h.hashKey ∧
+      (h.step mac open_ t op).blockKey = h.blockKey := by
   cases op with
   | decode k id =>
     simp only [Hub.step, Hub.decode]
     cases hid : id.isEmpty with
-    | true => exact ⟨hs, rfl⟩
+    | true => exact ⟨hs, rfl, rfl⟩
     | false =>
       simp only [Bool.false_eq_true, if_false]
       cases hget : h.cache.get (cacheKey k id) with
-      | some d => exact ⟨hs, rfl⟩
+      | some d => exact ⟨hs, rfl, rfl⟩
       | none =>
         simp only [cacheFill_flag, if_true]
-        cases hdec : decodeId mac h.hashKey open_ k t id with
-        | none => exact ⟨hs, rfl⟩
+        cases hdec : decodeId mac h.hashKey h.blockKey open_ k t id with
+        | none => exact ⟨hs, rfl, rfl⟩
         | some d =>
-          refine ⟨hs.set k id d (isEmpty_false hid) ?_, rfl⟩
-          intro t'; rw [decodeId_clock mac h.hashKey open_ k t' t]; exact hdec
+          refine ⟨hs.set k id d (isEmpty_false hid) ?_, rfl, rfl⟩
+          intro t'; rw [decodeId_clock mac h.hashKey h.blockKey open_ k t' t]; exact hdec
   | invalidate k id =>
     simp only [Hub.step, Hub.invalidate]
     cases hid : id.isEmpty with
-    | true => exact ⟨hs, rfl⟩
-    | false => exact ⟨hs.remove _, rfl⟩
-  | evict key => exact ⟨hs.remove _, by first | rfl | trivial⟩
+    | true => exact ⟨hs, rfl, rfl⟩
+    | false => exact ⟨hs.remove _, rfl, rfl⟩
+  | evict key => exact ⟨hs.remove _, by first | rfl | trivial, by first | rfl | trivial⟩
   | register now vp vq d =>
     obtain ⟨hnow, hvp, hvq⟩ := hwf
     simp only [Hub.step, Hub.register]
-    cases hp : encodeId mac h.hashKey .priv now vp with
-    | none => exact ⟨hs, rfl⟩
+    cases hp : encodeId mac h.hashKey h.blockKey .priv now vp with
+    | none => exact ⟨hs, rfl, rfl⟩
     | some p =>
-      cases hq : encodeId mac h.hashKey .pub now vq with
-      | none => exact ⟨hs, rfl⟩
+      cases hq : encodeId mac h.hashKey h.blockKey .pub now vq with
+      | none => exact ⟨hs, rfl, rfl⟩
       | some q =>
         simp only [Hub.setDecoded]
-        have hpne : p ≠ [] := by
-          intro e; subst e
-          have := C15_roundtrip mac h.hashKey .priv now vp [] 0 hnow hp
-          obtain ⟨_, _, d', v', t', hs', _⟩ := (C15_accept_iff_tag _ _ _ _ _ _).mp this
-          have : ([] : Bytes).length = (b64 (cookieBytes d' v' t')).length := by rw [hs', wire_length]
-          rw [b64_length] at this
-          simp [cookieBytes] at this
-          omega
-        have hqne : q ≠ [] := by
-          intro e; subst e
-          have := C15_roundtrip mac h.hashKey .pub now vq [] 0 hnow hq
-          obtain ⟨_, _, d', v', t', hs', _⟩ := (C15_accept_iff_tag _ _ _ _ _ _).mp this
-          have : ([] : Bytes).length = (b64 (cookieBytes d' v' t')).length := by rw [hs', wire_length]
-          rw [b64_length] at this
-          simp [cookieBytes] at this
-          omega
+        have hpne : p ≠ [] := minted_ne_nil hnow hp
+        have hqne : q ≠ [] := minted_ne_nil hnow hq
         have hpe : p.isEmpty = false := by cases p with | nil => exact absurd rfl hpne | cons _ _ => rfl
         have hqe : q.isEmpty = false := by cases q with | nil => exact absurd rfl hqne | cons _ _ => rfl
         simp only [hpe, hqe, Bool.false_eq_true, if_false]
-        refine ⟨?_, by first | rfl | trivial⟩
+        refine ⟨?_, by first | rfl | trivial, by first | rfl | trivial⟩
         have h1 := hs.set .priv p d hpne
-          (fun t' => C15_roundtrip_data mac h.hashKey open_ .priv now vp d p t' hnow hvp hp)
+          (fun t' => C15_roundtrip_data mac h.hashKey h.blockKey open_ .priv now vp d p t' hnow hvp hp)
         exact CacheSound.set (h := { h with cache := h.cache.set (cacheKey .priv p) d }) h1 .pub q d hqne
-          (fun t' => C15_roundtrip_data mac h.hashKey open_ .pub now vq d q t' hnow hvq hq)
+          (fun t' => C15_roundtrip_data mac h.hashKey h.blockKey open_ .pub now vq d q t' hnow hvq hq)
 
 /-- **C15_cache_sound.** After any sequence of decodes, invalidations, registrations and
 evictions, starting from an empty cache: (1) every cache entry is exactly what decoding its
 id in its role yields, and (2) `Hub.decode{Private,Public}SessionId` answers precisely as
 the codec would without any cache — for every string, in particular for strings whose
 cache key merely *looks* like another role's (`id|private-session` vs `id|public-session`). -/
-theorem C15_cache_sound (mac : Mac) (open_ : Bytes → Option Bytes) (t : Int) (hk : Bytes) (ops : List HubOp)
+theorem C15_cache_sound (mac : Mac) (open_ : Bytes → Option Bytes) (t : Int) (hk bk : Bytes) (ops : List HubOp)
     (hwf : ∀ op ∈ ops, op.wf open_) :
-    let h := ops.foldl (Hub.step mac open_ t) { hashKey := hk }
+    let h := ops.foldl (Hub.step mac open_ t) { hashKey := hk, blockKey := bk }
     CacheSound mac open_ h ∧
-    ∀ k id t', (h.decode mac open_ k t' id).2 = if id = [] then none else decodeId mac hk open_ k t' id := by
+    ∀ k id t', (h.decode mac open_ k t' id).2 = if id = [] then none else decodeId mac hk bk open_ k t' id := by
   have key : ∀ (ops : List HubOp) (h₀ : Hub), (∀ op ∈ ops, op.wf open_) → CacheSound mac open_ h₀ →
       CacheSound mac open_ (ops.foldl (Hub.step mac open_ t) h₀) ∧
-      (ops.foldl (Hub.step mac open_ t) h₀).hashKey = h₀.hashKey := by
+      (ops.foldl (Hub.step mac open_ t) h₀).hashKey = h₀.hashKey ∧
+      (ops.foldl (Hub.step mac open_ t) h₀).blockKey = h₀.blockKey := by
     intro ops
     induction ops with
-    | nil => intro h₀ _ hs; exact ⟨hs, rfl⟩
+    | nil => intro h₀ _ hs; exact ⟨hs, rfl, rfl⟩
     | cons op ops ih =>
       intro h₀ hwf hs
-      obtain ⟨s1, k1⟩ := step_sound mac open_ t h₀ op (hwf op (by simp)) hs
-      obtain ⟨s2, k2⟩ := ih (h₀.step mac open_ t op) (fun o ho => hwf o (by simp [ho])) s1
-      exact ⟨s2, k2.trans k1⟩
-  have hempty : CacheSound mac open_ { hashKey := hk } := by
+      obtain ⟨s1, k1, b1⟩ := step_sound mac open_ t h₀ op (hwf op (by simp)) hs
+      obtain ⟨s2, k2, b2⟩ := ih (h₀.step mac open_ t op) (fun o ho => hwf o (by simp [ho])) s1
+      exact ⟨s2, k2.trans k1, b2.trans b1⟩
+  have hempty : CacheSound mac open_ { hashKey := hk, blockKey := bk } := by
     intro key' d hget; simp [Cache.get] at hget
-  obtain ⟨hs, hkey⟩ := key ops { hashKey := hk } hwf hempty
+  obtain ⟨hs, hkey, hbk⟩ := key ops { hashKey := hk, blockKey := bk } hwf hempty
   refine ⟨hs, ?_⟩
   intro k id t'
-  have hkey : (ops.foldl (Hub.step mac open_ t) { hashKey := hk }).hashKey = hk := hkey
-  generalize ops.foldl (Hub.step mac open_ t) { hashKey := hk } = h at hs hkey
+  have hkey : (ops.foldl (Hub.step mac open_ t) { hashKey := hk, blockKey := bk }).hashKey = hk := hkey
+  have hbk : (ops.foldl (Hub.step mac open_ t) { hashKey := hk, blockKey := bk }).blockKey = bk := hbk
+  generalize ops.foldl (Hub.step mac open_ t) { hashKey := hk, blockKey := bk } = h at hs hkey hbk
   unfold Hub.decode
   cases hid : id.isEmpty with
   | true =>
@@ -460,10 +470,10 @@ theorem C15_cache_sound (mac : Mac) (open_ : Bytes → Option Bytes) (t : Int) (
     | some d =>
       obtain ⟨k', id', _, hkeq, hdec⟩ := hs _ d hget
       obtain ⟨rfl, rfl⟩ := cacheKey_injective hkeq
-      rw [← hkey]; exact (hdec t').symm
+      rw [← hkey, ← hbk]; exact (hdec t').symm
     | none =>
-      simp only [cacheFill_flag, if_true, hkey]
-      cases decodeId mac hk open_ k t' id <;> rfl
+      simp only [cacheFill_flag, if_true, hkey, hbk]
+      cases decodeId mac hk bk open_ k t' id <;> rfl
 
 /-! ## 8. The facts of the source the model and the proofs rest on -/
 
@@ -473,6 +483,7 @@ theorem C15_source_facts :
     encodePrivateName = privateSessionName ∧ decodePrivateName = privateSessionName ∧
     encodePublicName = publicSessionName ∧ decodePublicName = publicSessionName ∧
     privateSessionName ≠ publicSessionName ∧
+    blockKeyBoundToNames = true ∧ blockKeyBindingPrefix = "block-key|" ∧ blockKeyNameSep = "/" ∧
     encodePublicReverses = true ∧ decodePublicReverses = true ∧ reverseIsUrlBase64ByteReversal = true ∧
     maxAge = 0 ∧ codecIsSecurecookieNewWithProtoSerializer = true ∧
     decodePrivateChecksCanonical = true ∧ decodePublicChecksCanonical = true ∧
@@ -498,6 +509,7 @@ example : ∃ mac : Mac, IdealMac mac ∧ TagTailOpaque mac := ⟨opaqueMac, opa
 
 private def hk₀ : Bytes := [1, 2, 3]
 private def hk₁ : Bytes := [1, 2, 4]
+private def bk₀ : Bytes := [9, 9]
 private def m₀ : Mint := ⟨.priv, 5, [8, 1]⟩
 private def m₁ : Mint := ⟨.pub, 5, [8, 1]⟩
 
@@ -505,45 +517,73 @@ theorem decDigits_five : decDigits 5 = [53] := by
   unfold decDigits; rw [decRev]; decide
 
 /-- The encoder really produces `Mint.id` (so the theorems about `Mint.id` are about what
-`EncodePrivate`/`EncodePublic` return), here for a concrete private and public id. -/
-example : encodeId opaqueMac hk₀ m₀.kind m₀.now m₀.value = some (m₀.id opaqueMac hk₀) ∧
-    encodeId opaqueMac hk₀ m₁.kind m₁.now m₁.value = some (m₁.id opaqueMac hk₀) := by
+`EncodePrivate`/`EncodePublic` return), here for a concrete private and public id, without
+and with a block key. -/
+example : encodeId opaqueMac hk₀ [] m₀.kind m₀.now m₀.value = some (m₀.id opaqueMac hk₀ []) ∧
+    encodeId opaqueMac hk₀ [] m₁.kind m₁.now m₁.value = some (m₁.id opaqueMac hk₀ []) ∧
+    encodeId opaqueMac hk₀ bk₀ m₀.kind m₀.now m₀.value = some (m₀.id opaqueMac hk₀ bk₀) := by
   unfold encodeId cookieEncode Mint.id Mint.msg
   simp only [m₀, m₁, decDigits_five]
   decide
 
 /-- …they decode again (hypotheses of `C15_roundtrip`), are distinct strings, and all the
 rejection theorems apply to them non-trivially (their conclusions are about strings that do
-exist and are otherwise well-formed). -/
-example : decodeValue opaqueMac hk₀ .priv 0 (m₀.id opaqueMac hk₀) = some [8, 1] ∧
-    decodeValue opaqueMac hk₀ .pub 0 (m₁.id opaqueMac hk₀) = some [8, 1] ∧
-    m₀.id opaqueMac hk₀ ≠ m₁.id opaqueMac hk₀ ∧
-    decodeValue opaqueMac hk₁ .priv 0 (m₀.id opaqueMac hk₀) = none ∧
-    decodeValue opaqueMac hk₀ .pub 0 (m₀.id opaqueMac hk₀) = none ∧
-    decodeValue opaqueMac hk₀ .priv 0 (m₁.id opaqueMac hk₀) = none := by
+exist and are otherwise well-formed): other hash key, other block key, block key removed,
+other role. -/
+example : decodeValue opaqueMac hk₀ [] .priv 0 (m₀.id opaqueMac hk₀ []) = some [8, 1] ∧
+    decodeValue opaqueMac hk₀ [] .pub 0 (m₁.id opaqueMac hk₀ []) = some [8, 1] ∧
+    decodeValue opaqueMac hk₀ bk₀ .priv 0 (m₀.id opaqueMac hk₀ bk₀) = some [8, 1] ∧
+    m₀.id opaqueMac hk₀ [] ≠ m₁.id opaqueMac hk₀ [] ∧
+    decodeValue opaqueMac hk₁ [] .priv 0 (m₀.id opaqueMac hk₀ []) = none ∧
+    decodeValue opaqueMac hk₀ [9, 8] .priv 0 (m₀.id opaqueMac hk₀ bk₀) = none ∧
+    decodeValue opaqueMac hk₀ [] .priv 0 (m₀.id opaqueMac hk₀ bk₀) = none ∧
+    decodeValue opaqueMac hk₀ bk₀ .priv 0 (m₀.id opaqueMac hk₀ []) = none ∧
+    decodeValue opaqueMac hk₀ [] .pub 0 (m₀.id opaqueMac hk₀ []) = none ∧
+    decodeValue opaqueMac hk₀ [] .priv 0 (m₁.id opaqueMac hk₀ []) = none := by
   unfold Mint.id Mint.msg
   simp only [m₀, m₁, decDigits_five]
   decide
 
 /-- The decoder *without* the canonical-spelling guard (the code before repository commit
 "fix: reject session ids that are not the canonical base64 encoding of their bytes"). -/
-def decodeValueLenient (mac : Mac) (hashKey : Bytes) (k : Kind) (now : Int) (s : Bytes) : Option Bytes :=
+def decodeValueLenient (mac : Mac) (hashKey bk : Bytes) (k : Kind) (now : Int) (s : Bytes) : Option Bytes :=
   if k.reversesOnDecode then
     match reverseId s with
     | none => none
-    | some r => cookieDecode mac hashKey k.decodeName now r
-  else cookieDecode mac hashKey k.decodeName now s
+    | some r => cookieDecode mac hashKey (k.decodeName mac hashKey bk) now r
+  else cookieDecode mac hashKey (k.decodeName mac hashKey bk) now s
 
 /-- Without the guard `C15_any_modification_invalid` is false: appending a newline to a
-valid private id, or flipping an unused padding bit of a valid public id, yields a
-different string that decodes to the same data.  (Replayed on the real code by the
-mutation kinds `nl`, `padbits`, `pad` of the harness: all rejected since the fix.) -/
+valid private id yields a different string that decodes to the same data.  (Replayed on
+the real code by the mutation kinds `nl`, `padbits`, `pad` of the harness: all rejected
+since the fix.) -/
 theorem C15_without_guard_malleable :
-    ∃ s s' : Bytes, s ≠ s' ∧ decodeValueLenient opaqueMac hk₀ .priv 0 s = some [8, 1] ∧
-      decodeValueLenient opaqueMac hk₀ .priv 0 s' = some [8, 1] ∧
-      decodeValue opaqueMac hk₀ .priv 0 s = some [8, 1] ∧ decodeValue opaqueMac hk₀ .priv 0 s' = none := by
-  refine ⟨b64 (cookieBytes [53] (b64 [8, 1]) (opaqueMac hk₀ (macMsg (Kind.decodeName .priv) [53] (b64 [8, 1])))),
-    b64 (cookieBytes [53] (b64 [8, 1]) (opaqueMac hk₀ (macMsg (Kind.decodeName .priv) [53] (b64 [8, 1])))) ++ [10], ?_⟩
+    ∃ s s' : Bytes, s ≠ s' ∧ decodeValueLenient opaqueMac hk₀ [] .priv 0 s = some [8, 1] ∧
+      decodeValueLenient opaqueMac hk₀ [] .priv 0 s' = some [8, 1] ∧
+      decodeValue opaqueMac hk₀ [] .priv 0 s = some [8, 1] ∧ decodeValue opaqueMac hk₀ [] .priv 0 s' = none := by
+  refine ⟨b64 (cookieBytes [53] (b64 [8, 1]) (opaqueMac hk₀ (macMsg (Kind.decodeName .priv opaqueMac hk₀ []) [53] (b64 [8, 1])))),
+    b64 (cookieBytes [53] (b64 [8, 1]) (opaqueMac hk₀ (macMsg (Kind.decodeName .priv opaqueMac hk₀ []) [53] (b64 [8, 1])))) ++ [10], ?_⟩
+  decide
+
+/-- The decoder *without* the block-key binding (the code before repository commit
+"fix: bind the block key to the authenticated session id names"): names are the constants. -/
+def decodeValueUnbound (mac : Mac) (hashKey : Bytes) (k : Kind) (now : Int) (s : Bytes) : Option Bytes :=
+  if Base64.canonical Base64.url s = false then none
+  else if k.reversesOnDecode then
+    match reverseId s with
+    | none => none
+    | some r => cookieDecode mac hashKey k.decodeBase now r
+  else cookieDecode mac hashKey k.decodeBase now s
+
+/-- Without the binding `C15_other_keys_rejected` is false for key sets that differ in the
+block key only: the block key is no input of the decision at all, so whatever one key set
+accepts at the MAC stage the other accepts too (and then decrypts with the wrong key).
+Replayed on the real code by the key-set pairs "same hash key, other block key" of the
+harness. -/
+theorem C15_without_binding_block_key_ignored :
+    ∃ s : Bytes, decodeValueUnbound opaqueMac hk₀ .priv 0 s = some [8, 1] ∧
+      decodeValue opaqueMac hk₀ [] .priv 0 s = some [8, 1] ∧ decodeValue opaqueMac hk₀ bk₀ .priv 0 s = none := by
+  refine ⟨b64 (cookieBytes [53] (b64 [8, 1]) (opaqueMac hk₀ (macMsg (Kind.decodeBase .priv) [53] (b64 [8, 1])))), ?_⟩
   decide
 
 end SigModel.SessionId
